@@ -32,11 +32,13 @@ def _chunk(args):
     T = tracing.make_transpiler()
     opts = converter.ConversionOptions(recursive=True, user_requested=True, optional_features=None)
     cache, out, n, skipped, errs = {}, [], 0, 0, []
+    mods = {}
     for rec in recs:
         pid = rec['pid']
         p = progs[pid - 1]
         if pid not in cache:
             m = rp.load_module(p, pid, wd)
+            mods[pid] = m
             fn = getattr(m, p['fns'][0]['name'])
             try:
                 g, _, _ = T.transform(fn, converter.ProgramContext(options=opts))
@@ -49,9 +51,19 @@ def _chunk(args):
             continue
         try:
             tracing.reset_budget()
+            rp.world([], mods[pid])     # fresh external world (object factory O) for this run
             signal.setitimer(signal.ITIMER_REAL, 2.0)      # speculative runs can square big integers for ever
+            msg = ''
             try:
-                obs = mp.outcome(g, list(rec['inp']))
+                try:
+                    obs = ['ret', mp.enc(g(*list(rec['inp'])))]
+                except NameError as e:
+                    obs = ['exc', 'NameError']
+                    msg = str(e)
+                except tracing.BackendDiverged:
+                    raise
+                except Exception as e:
+                    obs = mp.outcome(lambda: (_ for _ in ()).throw(e), [])
             finally:
                 signal.setitimer(signal.ITIMER_REAL, 0)
         except (tracing.BackendDiverged, _Timeout):
@@ -63,38 +75,102 @@ def _chunk(args):
         n += 1
         exp = mp.spec_outcome(rec)
         if obs != exp:
-            out.append(dict(pid=pid, inp=rec['inp'], expected=exp, observed=obs))
+            out.append(dict(pid=pid, inp=rec['inp'], expected=exp, observed=obs, msg=msg))
     return dict(div=out, n=n, skipped=skipped, errs=errs)
 
 
 def rebound_only_through_callee(p):
-    """Some if/loop body calls a local function that rebinds, through `nonlocal`, a variable the body itself does not assign."""
+    """Some if/loop body calls a local function that changes - through `nonlocal` or by mutating an attribute of an
+    enclosing object - state the body itself does not assign.  Returns 'nonlocal', 'attribute' or None."""
     from .. import mpsig
     par = mpsig.parents(p)
-    writes = {}      # fid -> names written through a nonlocal declaration (directly)
+    byname = {f['name']: i for i, f in enumerate(p['fns'], 1)}
+    direct = {}      # fid -> (names written through nonlocal, attributes written)
+    callees = {}
     for i, f in enumerate(p['fns'], 1):
         nl = set(f['nonlocals'])
-        w = set()
+        w, aw, cs = set(), set(), set()
         for d in p['nodes']:
             if d['fn'] == i:
                 w |= set(d['tgt']) & nl
-        writes[i] = w
-    byname = {f['name']: i for i, f in enumerate(p['fns'], 1)}
+                if d['kind'] == 'setattr':
+                    aw.add('%s.%s' % (d['name'], d['attr']))
+                if d['kind'] == 'call' and d['name'] in byname:
+                    cs.add(byname[d['name']])
+        direct[i] = (w, aw)
+        callees[i] = cs
+
+    def closure(i, seen=()):
+        w, aw = set(direct[i][0]), set(direct[i][1])
+        for c in callees[i]:
+            if c not in seen and c != i:
+                w2, a2 = closure(c, seen + (i,))
+                w |= w2
+                aw |= a2
+        return w, aw
     for n, d in enumerate(p['nodes'], 1):
-        if d['kind'] != 'call' or d['name'] not in byname:
+        if d['kind'] != 'call':
             continue
-        w = writes[byname[d['name']]]
-        if not w:
+        target = byname.get(d['name'])
+        if target is None:       # call through an alias: any local function may be meant
+            cands = [i for i in direct if i != 1]
+        else:
+            cands = [target]
+        for c in cands:
+            w, aw = closure(c)
+            if not w and not aw:
+                continue
+            for k, sec, q in mpsig.path(p, n, par):
+                if k in ('if', 'while', 'for'):
+                    own = {m for m in range(1, len(p['nodes']) + 1) if any(qq == q for _, _, qq in mpsig.path(p, m, par))}
+                    assigned, aassigned = set(), set()
+                    for m in own:
+                        assigned |= set(p['nodes'][m - 1]['tgt'])
+                        if p['nodes'][m - 1]['kind'] == 'setattr':
+                            aassigned.add('%s.%s' % (p['nodes'][m - 1]['name'], p['nodes'][m - 1]['attr']))
+                    if w - assigned:
+                        return 'nonlocal'
+                    if aw - aassigned:
+                        return 'attribute'
+            # return lowering moves everything after a conditional `return` into the else branch of that conditional:
+            # a call that follows an `if` containing a return is then inside a functionalised branch as well
+            fn = d['fn']
+            early = any(dd['kind'] == 'return' and dd['fn'] == fn and mpsig.path(p, m, par)
+                        for m, dd in enumerate(p['nodes'], 1) if m < n)
+            if early:
+                return 'nonlocal' if w else 'attribute'
+    return None
+
+
+def unassigned_body_local(p, msg):
+    """NameError 'cannot access free variable v ...': v is assigned both directly in the block of an if/loop body and inside a
+    compound statement nested in that block - the generated body function makes v its own local (v is dead outside), and
+    the nested statement's state getter reads it before the first assignment."""
+    import re
+    from .. import mpsig
+    m = re.search(r"free variable '(\w+)'|local variable '(\w+)'|name '(\w+)'", msg)
+    if not m:
+        return None
+    v = m.group(1) or m.group(2) or m.group(3)
+    par = mpsig.parents(p)
+    direct = {}      # (compound stmt, section) -> names assigned directly in that block
+    nested = {}      # (compound stmt, section) -> names assigned in compound statements nested in that block
+    for n, d in enumerate(p['nodes'], 1):
+        names = set(d['tgt'])
+        if not names:
             continue
-        for k, sec, q in mpsig.path(p, n, par):
+        path = mpsig.path(p, n, par)
+        for i, (k, sec, q) in enumerate(path):
             if k in ('if', 'while', 'for'):
-                own = {m for m in range(1, len(p['nodes']) + 1) if any(qq == q for _, _, qq in mpsig.path(p, m, par))}
-                assigned = set()
-                for m in own:
-                    assigned |= set(p['nodes'][m - 1]['tgt'])
-                if w - assigned:
-                    return True
-    return False
+                key = (q, sec)
+                if i == len(path) - 1:
+                    direct.setdefault(key, set()).update(names)
+                else:
+                    nested.setdefault(key, set()).update(names)
+    for key in direct:
+        if v in direct[key] and v in nested.get(key, ()):
+            return v
+    return None
 
 
 def run(rep):
@@ -102,6 +178,9 @@ def run(rep):
     seed = common.seed()
     nprog = 700 if tier == 'quick' else 8000
     progs = [mp.gen_pure(seed * 100003 + i, maxdepth=3 if tier == 'quick' else 4) for i in range(nprog)]
+    # closure-heavy programs: local functions reached through aliases / other local functions, called after a statement
+    # that rebinds what they read
+    progs += [mp.gen_pure(seed * 100003 + 50000 + i, maxdepth=3, closure_heavy=True, lo=1, hi=3) for i in range(nprog // 3)]
     bounds = dict(MaxTrip=3, MaxSteps=90, IntMax=2) if tier == 'quick' else dict(MaxTrip=4, MaxSteps=140, IntMax=3)
     res, wd2 = mprun.explore(progs, bounds=bounds, name='c02', timeout=3000)
     rep.add_tlc(res)
@@ -136,8 +215,15 @@ def run(rep):
         for d in r['div']:
             p = progs[d['pid'] - 1]
             sig = 'c02:result:%s->%s' % (d['expected'][0], d['observed'][0] if d['observed'][0] != 'exc' else 'exc:' + d['observed'][1].split(':')[0:2][-1])
-            if rebound_only_through_callee(p):
+            how = rebound_only_through_callee(p)
+            v = unassigned_body_local(p, d.get('msg', ''))
+            if v:
+                how = None
+                sig = 'c02:state:getter-reads-variable-local-to-generated-body-before-assignment'
+            if how == 'nonlocal':
                 sig = 'c02:state:variable-rebound-only-through-nested-function-nonlocal'
+            elif how == 'attribute':
+                sig = 'c02:state:attribute-mutated-only-through-nested-function'
             rep.violation(sig,
                           'tracing backend computes %s, the original computes %s' % (d['observed'], d['expected']),
                           dict(source=mp.render(p)[0], inputs=d['inp'], expected=d['expected'], observed=d['observed']))
